@@ -168,4 +168,80 @@ theorem roundNE_sticky {W j T lw : Nat} (hlo : 2 ^ lw ≤ W) (hhi : W < 2 ^ (lw 
   · rw [if_pos hc, if_pos (key.mp hc), Nat.mul_assoc]
   · rw [if_neg hc, if_neg (fun h => hc (key.mpr h)), Nat.mul_assoc]
 
+theorem roundNE_le_pow {n lw : Nat} (hlo : 2 ^ lw ≤ n) (hhi : n < 2 ^ (lw + 1)) (h53 : 53 ≤ lw) :
+    roundNE n ≤ 2 ^ (lw + 1) := by
+  rw [roundNE_of_log2 hlo hhi h53]
+  have hS : 0 < 2 ^ (lw - 52) := two_pow_pos _
+  have e : 2 ^ (lw + 1) = 2 ^ 53 * 2 ^ (lw - 52) := by rw [← Nat.pow_add]; congr 1; omega
+  have hq : n / 2 ^ (lw - 52) < 2 ^ 53 := by
+    rw [Nat.div_lt_iff_lt_mul hS, ← e]; exact hhi
+  rw [e]
+  apply Nat.mul_le_mul_right
+  split <;> omega
+
+theorem maxFinite_ge : 2 ^ 128 ≤ maxFinite := by
+  unfold maxFinite
+  have h1 : (2 : Nat) ^ 52 ≤ 2 ^ 53 - 1 := by
+    have : (2 : Nat) ^ 53 = 2 ^ 52 * 2 := by rw [← Nat.pow_succ]
+    have := two_pow_pos 52
+    omega
+  have h2 : (2 : Nat) ^ 52 * 2 ^ 971 ≤ (2 ^ 53 - 1) * 2 ^ 971 := Nat.mul_le_mul_right _ h1
+  have h3 : (2 : Nat) ^ 128 ≤ 2 ^ 52 * 2 ^ 971 := by
+    rw [← Nat.pow_add]; exact Nat.pow_le_pow_right (by omega) (by omega)
+  omega
+
+/-- A `u128` always converts to a finite double. -/
+theorem roundNE_u128 {n : Nat} (h : n < 2 ^ 128) : roundNE n ≤ maxFinite := by
+  by_cases hs : n < 2 ^ 53
+  · rw [roundNE_small hs]; exact Nat.le_trans (Nat.le_of_lt h) maxFinite_ge
+  · have hn : n ≠ 0 := by
+      have := two_pow_pos 53
+      omega
+    have hlo : 2 ^ n.log2 ≤ n := Nat.log2_self_le hn
+    have hhi : n < 2 ^ (n.log2 + 1) := Nat.lt_log2_self
+    have h53 : 53 ≤ n.log2 := (Nat.le_log2 hn).mpr (by omega)
+    have hl : n.log2 < 128 := (Nat.log2_lt hn).mpr h
+    have := roundNE_le_pow hlo hhi h53
+    have h4 : (2 : Nat) ^ (n.log2 + 1) ≤ 2 ^ 128 := Nat.pow_le_pow_right (by omega) (by omega)
+    exact Nat.le_trans this (Nat.le_trans h4 maxFinite_ge)
+
+/-- `roundNE n` is the double nearest to `n`, ties to even: with `S = 2^(log2 n - 52)`
+    the spacing of doubles around `n` (n ≥ 2^53), the result is a multiple `m * S` with
+    `m ≤ 2^53`, it is within `S / 2` of `n`, and in case of a tie `m` is even. -/
+theorem roundNE_nearest {n : Nat} (h : 2 ^ 53 ≤ n) :
+    ∃ m, roundNE n = m * 2 ^ (n.log2 - 52) ∧ m ≤ 2 ^ 53 ∧
+      2 * (roundNE n - n) ≤ 2 ^ (n.log2 - 52) ∧ 2 * (n - roundNE n) ≤ 2 ^ (n.log2 - 52) ∧
+      ((2 * (roundNE n - n) = 2 ^ (n.log2 - 52) ∨ 2 * (n - roundNE n) = 2 ^ (n.log2 - 52)) → m % 2 = 0) := by
+  have hn : n ≠ 0 := by have := two_pow_pos 53; omega
+  have hlo : 2 ^ n.log2 ≤ n := Nat.log2_self_le hn
+  have hhi : n < 2 ^ (n.log2 + 1) := Nat.lt_log2_self
+  have h53 : 53 ≤ n.log2 := (Nat.le_log2 hn).mpr h
+  rw [roundNE_of_log2 hlo hhi h53]
+  generalize n.log2 = lw at *
+  have hSpos : 0 < 2 ^ (lw - 52) := two_pow_pos _
+  have e : 2 ^ (lw + 1) = 2 ^ 53 * 2 ^ (lw - 52) := by rw [← Nat.pow_add]; congr 1; omega
+  have hq : n / 2 ^ (lw - 52) < 2 ^ 53 := by
+    rw [Nat.div_lt_iff_lt_mul hSpos, ← e]; exact hhi
+  have hhalf : 2 ^ (lw - 53) * 2 = 2 ^ (lw - 52) := by
+    rw [← Nat.pow_succ]; congr 1; omega
+  have hdm := Nat.div_add_mod n (2 ^ (lw - 52))
+  have hrem : n % 2 ^ (lw - 52) < 2 ^ (lw - 52) := Nat.mod_lt _ hSpos
+  generalize 2 ^ (lw - 52) = S at *
+  generalize 2 ^ (lw - 53) = half at *
+  generalize n / S = q at *
+  generalize n % S = rem at *
+  have hSq : S * q = q * S := Nat.mul_comm _ _
+  by_cases hc : rem > half ∨ (rem = half ∧ q % 2 = 1)
+  · rw [if_pos hc]
+    refine ⟨q + 1, rfl, by omega, ?_⟩
+    have e2 : (q + 1) * S = q * S + S := by rw [Nat.add_mul, Nat.one_mul]
+    rw [e2]
+    refine ⟨by omega, by omega, ?_⟩
+    intro ht
+    omega
+  · rw [if_neg hc]
+    refine ⟨q, rfl, by omega, by omega, by omega, ?_⟩
+    intro ht
+    omega
+
 end Rsj.Codec
